@@ -22,7 +22,7 @@ def cfg_text(K, menus, inits, family, trace=False):
         return ("CONSTANTS\n  K = %d\n  W = 4096\n  Menus <- MenusF\n  Inits = \"full\"\n  Family = \"trace\"\n"
                 "INIT TInit\nNEXT TNext\nINVARIANT CaseOK\nCHECK_DEADLOCK FALSE\n" % K)
     return ("CONSTANTS\n  K = %d\n  W = 4096\n  Menus <- %s\n  Inits = \"%s\"\n  Family = \"%s\"\n"
-            "INIT Init\nNEXT Next\nINVARIANTS InWindow Laws\nCHECK_DEADLOCK FALSE\n" % (K, menus, inits, family))
+            "INIT Init\nNEXT Next\nINVARIANTS InWindow Laws LongLaw\nCHECK_DEADLOCK FALSE\n" % (K, menus, inits, family))
 
 
 def key_of(row):
@@ -35,6 +35,8 @@ def key_of(row):
         return "edge:%s:%s" % (row.get("what"), row.get("curve"))
     if a == "table":
         return "table:%s" % row.get("curve")
+    if a in ("step", "pred") and isinstance(row.get("args"), list) and len(row["args"]) > 12:
+        return "%s:%s:long:n=%d:pre=%s" % (a, row.get("op"), len(row["args"]), row.get("pre"))
     if a in ("step", "pred"):
         return "%s:%s:%s:pre=%s" % (a, row.get("op"), json.dumps(row.get("args"), separators=(",", ":")), row.get("pre"))
     if a in ("pstep", "pgt", "ppred"):
@@ -52,10 +54,10 @@ def run(chk):
     tcfg = os.path.join(rd, "GroupProgTrace_k.cfg")
     open(tcfg, "w").write(cfg_text(K, None, None, None, trace=True))
     if quick:
-        gens = [("quick", "MenusFS", "small", "group", "bls-g2=8"), ("pair", "MenusFS", "full", "pair", "")]
+        gens = [("quick", "MenusFS", "small", "group", "bls-g2=8"), ("pair", "MenusFS", "full", "pair", ""), ("long", "MenusF", "small", "long", "bls-g2=3")]
     else:
         gens = [("fs-full", "MenusFS", "full", "group", "bls-g2=4"), ("ff-small", "MenusFF", "small", "group", "bls-g2=4"),
-                ("fss-small", "MenusFSS", "small", "group", "bls-g2=8"), ("pair", "MenusFS", "full", "pair", "")]
+                ("fss-small", "MenusFSS", "small", "group", "bls-g2=8"), ("pair", "MenusFS", "full", "pair", ""), ("long", "MenusF", "small", "long", "")]
     stats = {"lines": 0, "by_action": {}, "generated": {}, "replayed_per_curve": {}, "jobs": 0}
 
     def validate(tag, hdr, rows, chunk=30000):
@@ -86,7 +88,7 @@ def run(chk):
             stats["generated"][tag] = n
             # (R) replay
             out = os.path.join(d, "trace.ndjson")
-            args = ["-mode", "prog" if family == "group" else "pair", "-in", prog, "-out", out, "-k", str(K), "-seed", str(chk.seed),
+            args = ["-mode", "pair" if family == "pair" else "prog", "-in", prog, "-out", out, "-k", str(K), "-seed", str(chk.seed),
                     "-offset", str(chk.seed)]
             if stride:
                 args += ["-stride", stride]
@@ -99,7 +101,7 @@ def run(chk):
                 raise vlib.MachineryError("%s: %d programme steps generated but %d replayed" % (tag, n, len(steps)))
             for x in rows:
                 stats["by_action"][x["a"]] = stats["by_action"].get(x["a"], 0) + 1
-            if family == "group":
+            if family != "pair":
                 names = [c["name"] for c in hdr["curves"]]
                 done = [0] * len(names)
                 for x in steps:
